@@ -424,29 +424,36 @@ Definition tag_dispatch (j : pv) (ts : list ty) : res pv :=
   end.
 
 (* for parser in self.parsers: if o in parser: return parser(o) *)
-Fixpoint union_scan (j : pv) (all : list ty) (l : list ty) {struct l} : res pv :=
+Section UnionScan.
+Variable j : pv.
+Variable all : list ty.
+Fixpoint union_scan (l : list ty) {struct l} : res pv :=
   match l with
   | t' :: r =>
       if is_parser_member t' then
-        bind (contains t' j) (fun b => if b then ld t' j else union_scan j all r)
-      else union_scan j all r
+        bind (contains t' j) (fun b => if b then ld t' j else union_scan r)
+      else union_scan r
   | [] => tag_dispatch j all
   end.
+End UnionScan.
 
 (* NamedTuple from a dict: keyword arguments, every key must name a field *)
-Fixpoint nt_loop (names : list pstr) (fts : list (ty * option pv))
-         (kvs : list (pv * pv)) (slots : list (option pv)) {struct kvs} : res (list (option pv)) :=
+Section NtLoop.
+Variable names : list pstr.
+Variable fts : list (ty * option pv).
+Fixpoint nt_loop (kvs : list (pv * pv)) (slots : list (option pv)) {struct kvs} : res (list (option pv)) :=
   match kvs with
   | [] => Ok slots
   | (VStr key, x) :: r =>
       match index_of (pstr_eqb key) names O with
       | Some i =>
           bind (apply_nth (fun ft => ld (fst ft) x) (unmodelled "namedtuple arity") fts i)
-               (fun v => nt_loop names fts r (set_nth i (Some v) slots))
+               (fun v => nt_loop r (set_nth i (Some v) slots))
       | None => raise "KeyError"
       end
   | _ :: _ => raise "KeyError"
   end.
+End NtLoop.
 
 (* TypedDict: required keys must be present, optional keys are taken when present *)
 Fixpoint td_req (kvs : list (pv * pv)) (l : list (pstr * ty)) {struct l} : res (list (pv * pv)) :=
@@ -469,19 +476,22 @@ Fixpoint td_opt (kvs : list (pv * pv)) (l : list (pstr * ty)) {struct l} : res (
   end.
 
 (* cls_fromdict: `for json_key in o` *)
-Fixpoint data_loop (c : cinfo) (fts : list (ty * option pv))
-         (kvs : list (pv * pv)) (slots : list (option pv)) {struct kvs} : res (list (option pv)) :=
+Section DataLoop.
+Variable c : cinfo.
+Variable fts : list (ty * option pv).
+Fixpoint data_loop (kvs : list (pv * pv)) (slots : list (option pv)) {struct kvs} : res (list (option pv)) :=
   match kvs with
   | [] => Ok slots
   | (VStr key, x) :: r =>
       match resolve c key with
       | KField i =>
           bind (apply_nth (fun ft => ld (fst ft) x) (unmodelled "class arity") fts i)
-               (fun v => data_loop c fts r (set_nth i (Some v) slots))
-      | KIgnore => data_loop c fts r slots
+               (fun v => data_loop r (set_nth i (Some v) slots))
+      | KIgnore => data_loop r slots
       end
   | _ :: _ => raise "AttributeError"     (* to_snake_case(non-str key) *)
   end.
+End DataLoop.
 End Parts.
 
 Definition no_slots (fts : list (ty * option pv)) : list (option pv) := map (fun _ => None) fts.
